@@ -6,7 +6,7 @@ import argparse, json, os, subprocess, sys, tempfile, shutil
 
 ROOT = os.path.dirname(os.path.dirname(os.path.abspath(__file__)))
 ap = argparse.ArgumentParser()
-ap.add_argument("--prop"); ap.add_argument("--name"); ap.add_argument("--tier", default="quick")
+ap.add_argument("--prop"); ap.add_argument("--name"); ap.add_argument("--tier", default="quick"); ap.add_argument("--save", action="store_true", help="record results in selftest/results/<prop>.json")
 a = ap.parse_args()
 muts = json.load(open(os.path.join(ROOT, "selftest", "mutants.json")))
 res = []
@@ -34,6 +34,15 @@ for m in muts:
         subprocess.run(["git", "-C", "/repo", "worktree", "remove", "--force", wt])
         shutil.rmtree(wt, ignore_errors=True)
 subprocess.run(["git", "-C", "/repo", "worktree", "prune"])
+if a.save:
+    head = subprocess.run(["git", "-C", "/repo", "rev-parse", "--short", "HEAD"], capture_output=True, text=True).stdout.strip()
+    os.makedirs(os.path.join(ROOT, "selftest", "results"), exist_ok=True)
+    byprop = {}
+    for m, r in res:
+        byprop.setdefault(m["prop"], []).append({"name": m["name"], "file": m["file"], "caught": r.startswith("exit=1"), "result": r[:400]})
+    for prop, lst in byprop.items():
+        json.dump({"property": prop, "tier": a.tier, "repo_head": head, "mutants": lst, "caught": sum(x["caught"] for x in lst), "total": len(lst)},
+                  open(os.path.join(ROOT, "selftest", "results", prop + ".json"), "w"), indent=1)
 bad = 0
 for m, r in res:
     caught = r.startswith("exit=1")
